@@ -423,6 +423,17 @@ def check(run):
                   'the still-unknown client port is taken from a datagram without checking that it comes from the client\'s address (guards: %s): the first datagram from ANY host fixes the port, after which the real client\'s datagrams are treated as replies and never forwarded' % [t for t, p_ in g],
                   'learned only under port()==0 && sender address == client address')
 
+    # ... and the datagram that taught the port is itself a client datagram: whose datagram this is is decided from the
+    # association's endpoint as it stands AFTER the learning step, never from a test evaluated before it
+    whose = [n_ for n_ in oru.all_nodes() if n_['k'] == 'call' and n_.get('opc') in ('==', '!=') and len(n_.get('args', [])) == 2 and
+             sorted(q.render(oru, q.strip_casts(a_)).replace('this->', '') for a_ in n_['args']) == ['m_udp_associate_ep', 'm_udp_from']]
+    if not whose:
+        run.unrecognised('R5', 'udp-sender-test-after-learning', C + '::on_read_udp', oru.loc(), 'the comparison of the sender with the association\'s endpoint was not found (idiom changed)')
+    for n_ in whose:
+        late = [c for c in learn if q.reachable_under(oru, n_, [c], lambda a_: None)]
+        run.check(not late, 'R5', 'udp-sender-test-after-learning', C + '::on_read_udp', oru.loc(n_),
+                  'the sender is compared with the association\'s endpoint BEFORE the client\'s port is learned from this very datagram (line %s is reachable after the test): with the usual 0.0.0.0:0 request the client\'s first datagram is taken for a reply from a target - it never reaches the target and comes back to the client wrapped in a header naming the client' % (oru.loc(late[0]).split(':')[-1] if late else ''),
+                  'no write of the client port is reachable after the test')
     run.clause('relay structure: each direction forwards the whole chunk it read with the composed async_write from the buffer the read filled, to the other connection, and re-reads into that buffer only from the write completion')
     PAIRS = (('on_client_receive', 'on_client_forward', 'm_out_buffer', 'm_server_connection', 'm_client_connection'),
              ('on_server_receive', 'on_server_forward', 'm_in_buffer', 'm_client_connection', 'm_server_connection'))
@@ -715,8 +726,55 @@ def check(run):
     run.clause('no length test or scan is bounded by a signed difference converted to unsigned (a short message must fail the test, not wrap it)')
     nsd = engines.signed_difference_compares(run, [f_ for f_ in fx.repo_functions(raw=True) if f_.file.endswith('socks_server.cpp') and f_.cfg is not None])
     run.ok('R11', 'unsigned-compare-of-difference', 'scan', '', 'relational comparisons with a signed operand converted to unsigned in socks_server.cpp: %d' % nsd, nontrivial=False)
+    run.clause('protocol bytes are read as UNSIGNED octets: an element of a plain-char buffer that is combined into a wider value (|, +, ^, <<) is first masked with a constant below 256 or converted to unsigned char - plain char is signed, and an octet of 0x80 and above would smear ones over the other octets (port 8080 read as 65424)')
+    nbytes = wire_bytes_unsigned(run, [f_ for f_ in fx.repo_functions(raw=True) if f_.file.endswith('socks_server.cpp') and f_.cfg is not None])
+    run.ok('R11', 'wire-byte-read-unsigned', 'scan', '', 'plain-char buffer elements that enter a combining operation in socks_server.cpp: %d, all masked or converted first' % nbytes, nontrivial=False)
+    if nbytes < 3:      # (15 on the tree as it stands; helpers reading a 16/32-bit field bring it down to a handful)
+        run.broke('only %d combined protocol octets found in socks_server.cpp (15 confirmed by hand: ports and IPv4 addresses of the SOCKS4/SOCKS5 requests and of the UDP header)' % nbytes)
     if nsink < 30:
         run.broke('only %d sinks found in socks_connection (about 60 confirmed by hand)' % nsink)
+
+
+def wire_bytes_unsigned(run, fns):
+    """Every read of an element of a plain-char buffer (built-in subscript, operator[] of an array/vector/string of char,
+    dereference of a char pointer) is followed upwards through conversions: a conversion to unsigned char or a mask with a
+    constant in [0, 255] makes it an octet; reaching |, |=, +, +=, ^, ^=, << or * before that is a violation (the promoted
+    value is sign-extended); a comparison, an initialisation, a plain assignment or an argument ends the walk.
+    Returns the number of reads that reach a combining operation (masked or not)."""
+    COMB = {'|', '|=', '+', '+=', '^', '^=', '<<', '<<=', '*'}
+    n = 0
+    for f_ in fns:
+        for x in f_.all_nodes():
+            if 't' not in x or f_.cty(x['t']).replace('const ', '').strip() != 'char':
+                continue
+            if not (x['k'] == 'sub' or (x['k'] == 'call' and x.get('opc') == '[]') or (x['k'] == 'un' and x.get('op') == '*')):
+                continue
+            cur, p_ = x, f_.parent(x)
+            clean = False
+            while p_ is not None:
+                k = p_['k']
+                if k in ('cast', 'construct', 'paren'):
+                    if 't' in p_ and f_.cty(p_['t']).replace('const ', '').strip() == 'unsigned char':
+                        clean = True
+                elif k == 'bin' and p_['op'] in ('&', '&='):
+                    other = p_['rhs'] if p_['lhs'] is cur else p_['lhs']
+                    v_ = q.int_value(q.strip_casts(other)) if is_node(other) else None
+                    if v_ is not None and 0 <= v_ <= 255:
+                        clean = True
+                elif k == 'bin' and p_['op'] in COMB:
+                    if p_['op'] in ('<<', '<<=') and p_['rhs'] is cur:
+                        break       # a shift COUNT
+                    if p_['op'] in ('|=', '+=', '^=', '<<=') and p_['lhs'] is cur:
+                        break       # the byte is the target, not an operand
+                    n += 1
+                    run.check(clean, 'R11', 'wire-byte-read-unsigned', '%s: %s' % (f_.norm, q.render(f_, x)), f_.loc(x),
+                              'the plain-char element %s is promoted (sign-extended) and combined by `%s` without a mask or a conversion to unsigned char: an octet of 0x80 or more turns every higher bit of the result on - a port or address with such an octet is parsed as another one (8080 -> 65424), the CONNECT goes to the wrong place and is answered as refused' % (q.render(f_, x), p_['op']),
+                              'masked / converted to an octet before `%s`' % p_['op'], nontrivial=False)
+                    break
+                else:
+                    break
+                cur, p_ = p_, f_.parent(p_)
+    return n
 
 
 def fmt_iv(iv):
